@@ -118,6 +118,32 @@ theorem examineD_fail_iff (rq : Request) (d : Datagram) :
     cases hk : d.questions.all (askedCase rq) <;>
     by_cases hid : rq.id = d.id <;> simp [hid]
 
+theorem endsInsteadOfSkipped_iff (rq : Request) (d : Datagram) :
+    endsInsteadOfSkipped rq d = true ↔ ∃ w, examineD rq d = .fail w := by
+  rw [examineD_fail_iff]
+  unfold endsInsteadOfSkipped
+  cases sourceOk rq d <;> cases d.parses <;> cases d.isResponse <;> cases rq.caseRand <;>
+    cases d.questions.all (asked rq) <;> cases d.questions.all (askedCase rq) <;>
+    by_cases hid : rq.id = d.id <;> simp [hid]
+
+/-
+Full statement of the clause "other datagrams are skipped" — FALSE of the code as it is:
+    ∀ rq d, ¬ Matches rq d → ∃ w, examineD rq d = .skip w
+Counter-example below (`skipped_counterexample`): garbage from the queried address ends the
+transmission (`DnsResponse::from_buffer(..)?`).  What holds is the statement outside the decidable
+class `endsInsteadOfSkipped`:
+-/
+/-- **udp_nonmatching_skipped_partial.** A datagram that does not match and is not in the class
+`endsInsteadOfSkipped` is skipped: the loop goes on to the next datagram. -/
+theorem udp_nonmatching_skipped_partial (rq : Request) (d : Datagram) (hn : ¬ Matches rq d)
+    (hH : endsInsteadOfSkipped rq d = false) : ∃ w, examineD rq d = .skip w := by
+  cases h : examineD rq d with
+  | accept => exact absurd ((examineD_accept_iff rq d).1 h) hn
+  | skip w => exact ⟨w, rfl⟩
+  | fail w =>
+    have := (endsInsteadOfSkipped_iff rq d).2 ⟨w, h⟩
+    rw [hH] at this; cases this
+
 /-- Everything else that does not match is skipped (`continue`). -/
 theorem examineD_trichotomy (rq : Request) (d : Datagram) :
     Matches rq d ∨ (∃ w, examineD rq d = .skip w) ∨ (∃ w, examineD rq d = .fail w) := by
@@ -388,6 +414,19 @@ example : recv exRq [.dgram exCaseFlip, .dgram exGenuine] = .fail 0 .caseMismatc
 example : recv { exRq with caseRand := false } [.dgram exCaseFlip] = .accept 0 := by decide
 -- garbage from the right source fails the transmission (it is not skipped)
 example : recv exRq [.dgram exGarbage, .dgram exGenuine] = .fail 0 .parse := by decide
+-- the literal clause "other datagrams are skipped" fails here: not matching, not skipped, in the class
+theorem skipped_counterexample :
+    ¬ Matches exRq exGarbage ∧ endsInsteadOfSkipped exRq exGarbage = true ∧
+      examineD exRq exGarbage = .fail .parse ∧
+      recv exRq [.dgram exGarbage, .dgram exGenuine] = .fail 0 .parse := by
+  refine ⟨fun m => ?_, by decide, by decide, by decide⟩
+  have := (examineD_accept_iff _ _).2 m
+  revert this; decide
+-- hypotheses of `udp_nonmatching_skipped_partial` are satisfiable (wrong id: skipped)
+example : ¬ Matches exRq exWrongId ∧ endsInsteadOfSkipped exRq exWrongId = false := by
+  refine ⟨fun m => ?_, by decide⟩
+  have := (examineD_accept_iff _ _).2 m
+  revert this; decide
 -- hypotheses of `udp_accepts_genuine`
 example : Matches exRq exGenuine := (examineD_accept_iff _ _).1 (by decide)
 example : ∀ e ∈ [Event.dgram exWrongPort, .dgram exWrongId], ∃ w, examine exRq e = .skip w := by
